@@ -137,3 +137,19 @@ def probe_k9_dir_source_name():
             return True
     finally:
         shutil.rmtree(d, ignore_errors=True)
+
+
+def k2_dir_overwrite_window(label, action, pre, problem):
+    """K2 (C13): overwriting an existing key of a dir_archive: the old entry is moved aside before the new
+    one is moved in, so a crash in between leaves the key absent (readable archive, other keys intact)."""
+    if not label.startswith('dir'):
+        return False
+    if action[0] not in ('set', 'update', 'dump', 'dump-keys', 'setdefault', 'seed'):
+        return False
+    what = problem.get('what', '')
+    if 'reads __absent__' not in what or 'touched key' not in what:
+        return False
+    import json as _j
+    prek = set(_j.dumps(k, sort_keys=True) for k, _ in pre)
+    m = what.replace('cache.load(): ', '').split('touched key ', 1)[1].split(' reads ')[0]
+    return m in prek and all('reads __absent__' in w and 'touched key' in w for w in problem.get('all', [what]))
